@@ -120,6 +120,29 @@ func c08Property(t *rapid.T) {
 			logf("P%d.Add(P%d) -> %s", i, j, hx.DescribeNL(pool[i]))
 			wfCheck(t, fmt.Sprintf("P%d.Add(P%d)", i, j), pool[i], true, history)
 		},
+		"relateListThenGrowBoth": func(t *rapid.T) {
+			// a directed three-step history (only meaningful without defensive clones): graft P_j at an anchor of P_i,
+			// then grow P_i's relating edge and P_j's root list — a relate that keeps P_j's root slice as the edge's
+			// targets lets the two appends overwrite one another
+			if !aliased || len(pool) < 2 {
+				t.Skip("needs the no-clone mode and two lists")
+			}
+			i, j := pick("i"), pick("j")
+			if i == j || len(pool[i].Nodes) == 0 {
+				t.Skip("needs two different lists and an anchor")
+			}
+			anchor := pool[i].Nodes[rapid.IntRange(0, len(pool[i].Nodes)-1).Draw(t, "anchor")].Id
+			ty := rapid.SampledFrom(c08Types).Draw(t, "ty")
+			_ = pool[i].RelateNodeListAtID(pool[j], anchor, ty)
+			_ = pool[i].RelateNodeAtID(c08Node(t, rapid.SampledFrom([]string{"f", "g"}).Draw(t, "newid")), anchor, ty)
+			// (the list added to P_j has a root no other list knows, so that a target written into the wrong list shows)
+			fresh := &sbom.NodeList{Nodes: []*sbom.Node{c08Node(t, "h")}, RootElements: []string{"h"}}
+			pool[j].Add(fresh)
+			mutSteps += 3
+			hx.Class("relate_list_then_grow_both")
+			logf("P%d.RelateNodeListAtID(P%d, %q, %v); P%d.RelateNodeAtID(new, %q, %v); P%d.Add({h}) -> P%d=%s P%d=%s", i, j, anchor, ty, i, anchor, ty, j, i, hx.DescribeNL(pool[i]), j, hx.DescribeNL(pool[j]))
+			wfCheck(t, "RelateNodeListAtID/RelateNodeAtID/Add", pool[i], false, history)
+		},
 		"removeNodes": func(t *rapid.T) {
 			i := pick("i")
 			ids := rapid.SliceOfN(rapid.SampledFrom(append([]string{"zz"}, hx.SmallIDs...)), 0, 3).Draw(t, "ids")
